@@ -340,6 +340,23 @@ def check_case(ctx, case, rng):
                         d = obj.dumps()
                     except Exception:  # noqa: BLE001
                         ctx.event("out_of_range_bit_field_values_refused")
+                        # ... and the refused write (it may have stopped in the middle of a unit) left nothing behind: a value
+                        # that fits is written as ever, by the same object after the member was put right and by a new one
+                        try:
+                            v = model.random_value(top, rng, cfg)
+                            dm, _ = model.dump(top, v, cfg)
+                            d2 = lib.build(T, top, v).dumps()
+                            setattr(obj, T.__fields__[i]._name, 0)
+                            d3, dz = obj.dumps(), model.dump(top, model.default_value(top, cfg), cfg)[0]
+                            ctx.event("writes_after_a_refused_write")
+                            if d2 != dm or d3 != dz:
+                                ctx.violation("write-inverse", "dump-after-a-refused-write-differs-from-model-dump",
+                                              case_detail(case, cfg=cfgd, field=f["name"], bad=bad, value=model.clean(v), got=d2, want=dm, again=d3))
+                        except model.ModelUnsupported:
+                            pass
+                        except Exception as e:  # noqa: BLE001
+                            ctx.violation("dump-raises", f"dump-after-a-refused-write-raises:{type(e).__name__}",
+                                          case_detail(case, cfg=cfgd, field=f["name"], bad=bad, error=lib.exc_sig(e)))
                         continue
                     ctx.violation("write-inverse", "bit-field-value-outside-its-range-written-instead-of-refused",
                                   case_detail(case, cfg=cfgd, field=f["name"], bits=f["bits"], value=bad, got=d))
